@@ -3,19 +3,61 @@ from vf.core import SubCheck
 from vf.props import c05_sets as A
 from vf.props import c05_leak as B
 
-RULE = "tbd"
-ASSUMPTIONS = []
+RULE = ("(A) Hypothesis-generated RDM stacks (1-8 RDMs x 3-10 conditions, hidden ids _rid/_cid, every "
+        "entry encoding its RDM and pair) with grouping descriptors per dimension (default index, "
+        "overridden integer 'index' with repeats, named int/str descriptor, list/ndarray, unique or "
+        "repeated values, optionally NaN between members of a condition group as in a bootstrap "
+        "sample); each of the 8 generators with k / group size / n drawn over the whole admissible "
+        "range (incl. k=1, defaults, default descriptor arguments), ordered or random assignment with "
+        "the shuffle outcomes injected from a generated integer list. Oracle: every object handed out "
+        "is traced back through the ids (values, descriptors, whole groups exactly once), advertised "
+        "pattern indices = groups contained, test/train groups disjoint and complementary in each "
+        "cross-validated dimension, ceil_set = training RDMs x test conditions, exhaustive schemes: "
+        "requested number of folds, every (RDM group x condition group) cell in exactly one test "
+        "fold, fold sizes differ by <= 1 (groups of k: >= k). (B) numeric stacks whose folds stay "
+        "evaluable, 1-2 models (fixed / select / weighted with regress, regress_nn, optimize / "
+        "interpolate), cosine / corr / spearman; crossval (or _internal_cv on a real injected bootstrap "
+        "sample, partition predicates included) run with a recording fitter; all or a generated "
+        "subset of the dissimilarities touching a test-only condition or RDM of one fold are rescaled "
+        "and the run repeated with the same injected shuffles: theta of that fold bit-identical; then "
+        "thetas replayed and training-only entries rescaled: the fold's score bit-identical. "
+        "Non-trivial: (A) more than one fold and a grouping descriptor with repeats; (B) a perturbation "
+        "touching >= 1 entry and a continuously fitted model; distinct by SHA1 of the case.")
+
+ASSUMPTIONS = [
+    "documented preconditions are respected by construction: k <= number of groups, group size "
+    "k <= groups/2 for sets_of_k_*, n_rdm / n_pattern smaller than the number of groups for "
+    "sets_random, >= 2 condition groups for leave-one-out over conditions",
+    "an empty training set for sets_k_fold_rdm(k_rdm=1) is not asserted against (only sets_k_fold / "
+    "sets_k_fold_pattern / sets_random document 'k=1: train = test = everything'; crossval skips "
+    "folds with empty sides)",
+    "generators over RDMs only advertise condition positions 0..n_cond-1; this is compared with the "
+    "default 'index' only (an input whose 'index' was overridden is not asserted there)",
+    "order of RDMs / conditions inside the handed-out objects is not asserted",
+    "leakage is decided metamorphically relative to the library's own train/test objects (whose "
+    "disjointness part A decides); bit-identity requires deterministic fitters: fit_optimize draws "
+    "its starting points from numpy's global generator, which is re-seeded from the case before "
+    "every run",
+    "models carry the grouping pattern descriptor on their own RDMs; ModelFixed overwrites 'index' on "
+    "its RDM, so leakage cases never group conditions by an overridden 'index'",
+    "fit_regress_nn can cycle forever in its active-set loop on some inputs (absolute stopping "
+    "threshold); such cases hit a 15 s watchdog and are counted inconclusive, singular regressions "
+    "are counted as rejected",
+    "noise ceilings are not part of this property (calc_noise_ceil=False where the API allows it)",
+]
 
 SUBCHECKS = [
-    SubCheck('sets_' + g, A.sets_case(g), A.check_sets_case, A.classify_sets, quick=80,
-             doc='partition predicates for sets_' + g)
+    SubCheck('sets_' + g, A.sets_case(g), A.check_sets_case, A.classify_sets, quick=100,
+             doc='partition / content predicates for sets_' + g.replace('loo', 'leave_one_out'))
     for g in A.GENS
 ] + [
-    SubCheck('leak_' + fam, B.leak_case(fam), B.check_leak, B.classify_leak, quick=50,
-             doc=doc)
+    SubCheck('leak_' + fam, B.leak_case(fam), B.check_leak, B.classify_leak, quick=60, doc=doc)
     for fam, doc in [
-        ('rdm', 'crossval on folds over RDMs: theta vs test-only RDMs, score vs training-only RDMs'),
-        ('pattern', 'crossval on folds over conditions'),
+        ('rdm', 'crossval on folds over RDMs (k_fold_rdm, leave_one_out_rdm, of_k_rdm): theta vs '
+                'test-only RDMs, score vs training-only RDMs'),
+        ('pattern', 'crossval on folds over conditions (k_fold_pattern, leave_one_out_pattern, '
+                    'of_k_pattern)'),
         ('both', 'crossval on sets_k_fold / sets_random folds over RDMs and conditions'),
-        ('boot', '_internal_cv on a bootstrap sample (fold ids expanded by _concat_sampling)')]
+        ('boot', '_internal_cv on an injected bootstrap sample (fold ids expanded to multiplicities by '
+                 '_concat_sampling) incl. partition predicates on the sample')]
 ]
